@@ -388,6 +388,13 @@ def gen_world(r: random.Random, profile: str) -> Dict[str, Any]:
                  bigvol=r.random() < 0.1, max_ops=4 if P == "sessions" else 3,
                  hft_mult=3 if P in ("sessions", "callbacks", "hooks") else 2)
     events_for(r, w, P)
+    plain_ = [m["name"] for m in w.markets if not m["index"]]
+    if P == "clock" and len(plain_) >= 3 and not any(m["index"] for m in w.markets) and r.random() < 0.15:
+        for nm in plain_[:3]:
+            w.cfg[nm]["fundamentalVolatility"] = 0.01
+        w.cfg["simulation"]["fundamentalCorrelations"] = {"pairwise": [[plain_[0], plain_[1], 0.6], [plain_[1], plain_[2], 0.6],
+                                                                      [plain_[0], plain_[2], -0.9]]}
+        return w.scenario(recover_corr=[plain_[0], plain_[2]])
     return w.scenario()
 
 
